@@ -114,10 +114,12 @@ class Collector:
             out_lines.append(f"KNOWN-FINDING: property={self.pid} {hit['what']} [key={key} occurrences={cnt}]")
         n_viol = 0
         rdir = os.path.join(OUT, 'replays', self.pid)
+        confirmed = {}
+        if confirm and task_fn is not None and violations:
+            confirmed = _confirm_all(task_fn, [(key, payload) for key, _i, payload, _m, _c in violations[:VIOL_CAP]])
         for key, idx, payload, msg, cnt in violations[:VIOL_CAP]:
             if confirm and task_fn is not None:
-                again = _confirm(self.module, task_fn, payload, key)
-                if again is False:
+                if confirmed.get(key) is False:
                     self.infra.append(f'nondeterministic verdict for key {key}: did not reproduce on re-execution')
                     continue
             os.makedirs(rdir, exist_ok=True)
@@ -189,6 +191,19 @@ def validate_evidence(path):
                   file=sys.stderr)
     except Exception:
         pass
+
+
+def _confirm_all(task_fn, keyed_payloads):
+    """Re-run the payload of every violation once more (fresh workers, one pool); key -> reproduced?"""
+    from . import runner
+    out = {}
+    payloads = [p for _k, p in keyed_payloads]
+    for idx, tagged in runner.run_tasks(task_fn, payloads):
+        key = keyed_payloads[idx][0]
+        out[key] = tagged[0] == 'ok' and any(f['key'] == key for f in tagged[1].get('fails', []))
+    for k, _p in keyed_payloads:
+        out.setdefault(k, False)
+    return out
 
 
 def _confirm(module, task_fn, payload, key):
